@@ -59,6 +59,11 @@ theorem C09_path_from_splits (G : List Term) (I J : Term) (h : Unsat (I :: G ++ 
 theorem C08_labelled_interpolation_sound (A B : Itp.Asg → Prop) (n : Itp.Node) (h : n.WF A B) (hempty : n.clause = []) :
     (∀ σ, A σ → n.itp.eval σ = true) ∧ (∀ σ, B σ → n.itp.eval σ = false) := Itp.root_interpolant A B n h hempty
 
+/-- the form the mirror uses: the executable structural check plus the leaves following from their sides -/
+theorem C08_checked_refutation_interpolant (A B : Itp.Asg → Prop) (n : Itp.Node) (hs : n.structOk = true) (hl : n.leavesOk A B)
+    (hempty : n.clause = []) :
+    (∀ σ, A σ → n.itp.eval σ = true) ∧ (∀ σ, B σ → n.itp.eval σ = false) := Itp.checked_refutation_interpolant A B n hs hl hempty
+
 theorem C08_labelled_interpolation_symbols (A B : Itp.Asg → Prop) (inA inB : Itp.Var → Bool) (n : Itp.Node)
     (h : n.WF A B) (hf : n.Faithful inA inB) : ∀ v ∈ n.itp.vars, inA v = true ∧ inB v = true :=
   Itp.itp_vars_shared A B inA inB n h hf
